@@ -20,6 +20,11 @@ import shutil
 import tempfile
 from fractions import Fraction
 
+import sys
+
+if hasattr(sys, "set_int_max_str_digits"):
+    sys.set_int_max_str_digits(0)   # exact values of literals such as 1e-5000 are printed in failure messages
+
 DRIVER = "C18"
 RULE = ("size literals: seeded generator over plain/huge integers (up to 40 digits, >= 2^53), decimals with > 15 significant "
         "digits, exponents |e| <= 30, up to +-2000, on the boundary of the range test (most significant digit at 10^+-998..1002), and huge (5-30 digits, incl. the limits of decimal.Decimal), single/misplaced underscores, units {'',B,kB..PB} and wrong-case/unknown units, spaces and "
@@ -226,7 +231,11 @@ def guarded_outcomes(lits, timeout=5.0):
         return subprocess.Popen([sys.executable, "-c", _WORKER, REPO], stdin=subprocess.PIPE, stdout=subprocess.PIPE,
                                 stderr=subprocess.DEVNULL, text=True, bufsize=1, env=env)
 
+    timeouts = 0
     for s in lits:
+        if timeouts >= 3:
+            out.append("skipped")     # the regression is established; do not spend 5 s on each remaining literal
+            continue
         if proc is None or proc.poll() is not None:
             proc = start()
         try:
@@ -238,6 +247,7 @@ def guarded_outcomes(lits, timeout=5.0):
             line = ""
         if not line:
             out.append("timeout" if proc.poll() is None else "crashed")
+            timeouts += 1
             proc.kill()
             proc = None
         else:
@@ -260,6 +270,11 @@ def big_sample(ctx, n):
             seen.add(s)
             out.append(s)
     return out
+
+
+def _short(v, n=70):
+    t = str(v)
+    return t if len(t) <= n else "%s…(%d chars)…%s" % (t[: n // 2], len(t), t[-n // 2:])
 
 
 def cps(s):
@@ -373,6 +388,8 @@ def corr_literals_a(ctx):
 
     def finish(ans):
         for s, rq, e, a in zip(lits, reqs, impl, ans):
+            if e == "skipped":
+                continue
             ctx.count({"literal": s, "impl": e[:80]}, nontrivial=literal_nontrivial(s), kind=lit_kind(s, e))
             if e != a:
                 ctx.disagree("convertStr = convert_to_bytes(str)", {"literal": s, "request": rq}, a, e)
@@ -1058,6 +1075,8 @@ def oracle_literals(ctx):
     # exponents with >= 5 digits: the call must return promptly (child process, 5 s per call)
     big = big_sample(ctx, ctx.budget(150, 1200)) + ["١e٩٩٩٩٩٩٩٩٩", "1e" + "９" * 12]
     for s, out in zip(big, guarded_outcomes(big)):
+        if out == "skipped":
+            continue
         ctx.count({"oracle_literal": s, "impl": out[:40]}, nontrivial=True, kind="oracle-big:" + " ".join(out.split(" ")[:2])[:24])
         if out in ("timeout", "crashed"):
             ctx.fail("convert_to_bytes(%r) did not return within 5 s (%s): neither interpreted nor rejected" % (s, out), {"literal": s, "outcome": out})
@@ -1080,8 +1099,8 @@ def oracle_literals(ctx):
         v = exact_value(s)
         ctx.count({"oracle_literal": s, "impl": str(r)[:60]}, nontrivial=literal_nontrivial(s), kind="oracle-lit:accepted")
         if type(r) is not int or v is None or v == HUGE or v != r or r < 0:
-            ctx.fail("convert_to_bytes(%r) returned %r, the string denotes %s" % (s, r, "nothing" if v is None else str(v)),
-                     {"literal": s, "returned": repr(r), "exact": None if v is None else str(v)})
+            ctx.fail("convert_to_bytes(%r) returned %s, the string denotes %s" % (s, _short(r), "nothing" if v is None else _short(v)),
+                     {"literal": s, "returned": _short(r, 400), "exact": None if v is None else _short(v, 400)})
             continue
         if ctx.rng.random() < 0.2:
             sp = cubed.Spec(allowed_mem=s, reserved_mem=s)
